@@ -67,12 +67,12 @@ fn sanitize(s: &str, max: usize) -> String {
 const PRINT_MACROS: [&str; 4] = ["println", "eprintln", "print", "eprint"];
 
 // method -> renamed shim method (dispatch by shim trait on the receiver type)
-const SHIM_METHODS: [&str; 34] = [
+const SHIM_METHODS: [&str; 35] = [
     "len", "read_until", "read_to_end", "read_exact",
     "to_string", "join", "trim", "parse", "replace", "to_lowercase", "to_uppercase", "starts_with",
     "ends_with", "contains", "split_once", "to_vec", "concat", "borrow", "eq", "as_ref", "as_bytes",
     "as_str", "extend", "copied", "strip_prefix", "strip_suffix", "trim_matches", "lines", "find",
-    "rfind", "is_char_boundary", "to_owned", "into_bytes", "chars_unsupported",
+    "rfind", "is_char_boundary", "to_owned", "into_bytes", "chars_unsupported", "replacen",
 ];
 
 // path calls renamed to free shim functions
@@ -312,6 +312,15 @@ impl Rw {
                     let x = &ch.receiver;
                     self.log("R-SHIM", sp, ".chars().rev().collect() -> rws_chars_rev_collect");
                     return syn::parse2(quote! { (#x).rws_chars_rev_collect() }).ok();
+                }
+            }
+            // X.chars().skip(n).collect::<String>()
+            if let Some(sk) = Self::is_method(recv, "skip", 1) {
+                if let Some(ch) = Self::is_method(&sk.receiver, "chars", 0) {
+                    let x = &ch.receiver;
+                    let n = &sk.args[0];
+                    self.log("R-SHIM", sp, ".chars().skip(n).collect() -> rws_chars_skip_collect(n)");
+                    return syn::parse2(quote! { (#x).rws_chars_skip_collect(#n) }).ok();
                 }
             }
             // X.chars().collect::<Vec<char>>()   (only the Vec<char> target is supported)
